@@ -108,7 +108,7 @@ def plan_C04(tier, seed):
 
     def fill(m):
         m.add(E.h_from_str_pos(m))
-        if m.decl.n <= (12 if th else 6):
+        if m.decl.n <= (12 if th else 6) and (th or m.decl.max_name_len <= 8):
             Lm = min(L, m.decl.max_name_len + 1)
             m.add(E.h_from_str_sym(m, max(Lm, 2)))
 
@@ -190,7 +190,9 @@ def plan_C07(tier, seed):
         if th:
             return allb
         if d.family == "K5":
-            return ["RGn", "RGt", "RGr"]
+            # the 300-variant next_and_back modules cost minutes; the inductive step on the
+            # smaller big enums and Engine C2 cover that arithmetic
+            return ["RGt", "RGr"] if d.n >= 300 else ["RGn", "RGt", "RGr"]
         if d.family == "K3":
             i = sum(map(ord, d.name)) % 3
             return [["RGr", "RGa"], ["RGn"], ["RGt", "RGr"]][i]
